@@ -25,12 +25,28 @@ import (
 // Layouts: single line, one token group per line, non-ASCII prefix.
 
 type c13Layout struct {
-	name   string
-	multi  bool
-	prefix bool
+	name     string
+	multi    bool
+	prefix   bool
+	sameLine bool // the non-ASCII prefix sits on the same line as the expression
+	chains   bool // left operands that are binary operators of at least the same precedence are not parenthesised
 }
 
-var c13Layouts = []c13Layout{{"line", false, false}, {"multiline", true, false}, {"unicode-prefix", false, true}, {"unicode-prefix-multiline", true, true}}
+var c13Layouts = []c13Layout{{"line", false, false, false, false}, {"multiline", true, false, false, false}, {"unicode-prefix", false, true, false, false}, {"unicode-prefix-multiline", true, true, false, false},
+	{"unicode-prefix-same-line", false, true, true, false}, {"chains", false, false, false, true}, {"chains-multiline", true, false, false, true}}
+
+const c13PrefixSameLine = "[\"zürich😀\", "
+
+var c13Prec = map[string]int{"or": 10, "||": 10, "and": 15, "&&": 15, "==": 20, "!=": 20, "<": 20, ">": 20, ">=": 20, "<=": 20, "not in": 20, "in": 20, "matches": 20, "contains": 20, "startsWith": 20, "endsWith": 20, "..": 25, "+": 30, "-": 30, "*": 60, "/": 60, "%": 60}
+
+func c13NoParen(parent, kid *gen.Expr, slot int) bool {
+	if parent.R.Op != "bin" || kid.R.Op != "bin" || slot != 0 {
+		return false
+	}
+	pp, ok1 := c13Prec[parent.R.Arg]
+	kp, ok2 := c13Prec[kid.R.Arg]
+	return ok1 && ok2 && kp >= pp
+}
 
 const c13Prefix = "[\"é😀ñ\",\n"
 const c13Suffix = "][1]"
@@ -38,6 +54,29 @@ const c13Suffix = "][1]"
 // layoutText returns the laid out source and the expected location of every path.
 func c13Text(e *gen.Expr, l c13Layout) (string, map[string][2]int) {
 	text, anchors := e.PrintAnchors(l.multi)
+	if l.chains {
+		t2, a2 := e.PrintAnchorsWith(l.multi, c13NoParen)
+		// use the text with fewer parentheses only if the reference parser reads it as the same tree
+		s1, e1, l1 := refparse.ParseString(text)
+		s2, e2, l2 := refparse.ParseString(t2)
+		if t2 != text && e1 == nil && e2 == nil && l1 == nil && l2 == nil && s1 == s2 {
+			text, anchors = t2, a2
+		} else {
+			return text, map[string][2]int{} // nothing new to check in this layout
+		}
+	}
+	if l.sameLine {
+		out := map[string][2]int{}
+		shift := len([]rune(c13PrefixSameLine))
+		for k, a := range anchors {
+			if a[0] == 1 {
+				out[k] = [2]int{1, a[1] + shift}
+			} else {
+				out[k] = a
+			}
+		}
+		return c13PrefixSameLine + text + c13Suffix, out
+	}
 	if !l.prefix {
 		return text, anchors
 	}
@@ -280,7 +319,10 @@ func c13(r *report.Run) {
 		}
 		// (C) one stray / deleted token
 		if e.Size() <= 4 {
-			for _, l := range c13Layouts[:3] {
+			for _, l := range c13Layouts[:5] {
+				if l.multi && l.prefix {
+					continue
+				}
 				src, _ := c13Text(e, l)
 				toks, err := lexer.Lex(file.NewSource(src))
 				if err != nil {
